@@ -112,17 +112,20 @@ Theorem time_to_next_beat_range : forall (s : clockstate) (now : num) (a : quant
   exists d, val (ttnb s now a) d /\ 0 <= d /\ d < toQ (fst (as_quant a)).
 Proof. exact ttnb_range. Qed.
 
-(* play(task, quant): the task is handed to sched_abs at next_time_on_grid(quant.quant, quant.phase)
-   and (NRT ClockTask) first runs at the logical second of that beat, where clock.beats reads
-   that beat again.
-   _partial: the full play_quant_schedules_on_grid of DESIGN.md composes this with the scheduler
-   model of C05 (queue order, and no tempo/beats change between play and the wake-up, cf. F11);
-   here the scheduler step is the hand-written wake_seconds/wake_beat of model/Tempo.v. *)
-Theorem play_quant_schedules_on_grid_partial : forall (s : clockstate) (now : num) (a : quantarg),
+(* play(task, quant) with NO change before the wake-up, under the weakest hypotheses: only the field types and
+   beat_dur * tempo = 1 -- no meter invariant, and the tempo may be negative (etempo allows it).  The task is
+   handed to sched_abs at next_time_on_grid(quant.quant, quant.phase), filed under beats2secs of it, and first
+   runs where clock.beats reads exactly that beat.  (This is the case h = [] of play_quant_schedules_on_grid below,
+   which needs WF and a positive tempo because its histories contain tempo setters; it replaces, and contains the
+   statement of, the earlier theorem about the hand-written wake_beat / wake_seconds.) *)
+Theorem play_quant_wakes_on_grid_any_tempo : forall (s : clockstate) (now : num) (a : quantarg),
   Typed s -> TInv s -> ok (py_next_time_on_grid s now (fst (as_quant a)) (snd (as_quant a))) ->
-  val (wake_beat s (play_beat s now a)) (toQ (py_next_time_on_grid s now (fst (as_quant a)) (snd (as_quant a)))) /\
-  wake_seconds s (play_beat s now a) = py_beats2secs s (py_next_time_on_grid s now (fst (as_quant a)) (snd (as_quant a))).
-Proof. exact play_wakes_on_grid. Qed.
+  run_pend s [] (sched_abs_nrt s (play_beat s now a)) = Some (s, sched_abs_nrt s (play_beat s now a)) /\
+  p_beats (sched_abs_nrt s (play_beat s now a)) = py_next_time_on_grid s now (fst (as_quant a)) (snd (as_quant a)) /\
+  p_secs (sched_abs_nrt s (play_beat s now a)) = py_beats2secs s (py_next_time_on_grid s now (fst (as_quant a)) (snd (as_quant a))) /\
+  val (wake_beat_of s (sched_abs_nrt s (play_beat s now a)))
+      (toQ (py_next_time_on_grid s now (fst (as_quant a)) (snd (as_quant a)))).
+Proof. exact play_wakes_any_tempo. Qed.
 
 (* FULL STRENGTH (deepening round).  A routine played with a Quant on the clock, followed by ANY history h
    of tempo / etempo / beats / beats_per_bar changes (each at its own logical time) before it wakes up.
@@ -148,6 +151,18 @@ Theorem play_quant_schedules_on_grid : forall (s : clockstate) (now : num) (a : 
     val (wake_beat_of s' p') (toQ (py_next_time_on_grid s now (fst (as_quant a)) (snd (as_quant a)))) /\
     (forall now', ok now' -> toQ (py_beats s' now') <= toQ (p_beats p') -> toQ now' <= toQ (p_secs p')).
 Proof. exact play_then_history. Qed.
+
+(* Several tasks pending on the clock (each filed under beats2secs of its due beat): after ANY history of valid
+   changes both are still due at their beats and the seconds they are filed under are ordered like those beats, so a
+   scheduler that pops by seconds (C09: the ClockScheduler queue) runs them in beat order -- two routines played
+   for grid points g1 <= g2 wake in that order whatever happens to the tempo in between. *)
+Theorem pending_tasks_keep_beat_order : forall (h : list op) (s : clockstate) (p1 p2 : pend),
+  WF s -> 0 < toQ (tempo s) -> Forall op_ok h ->
+  p_secs p1 = py_beats2secs s (p_beats p1) -> p_secs p2 = py_beats2secs s (p_beats p2) ->
+  ok (p_beats p1) -> ok (p_beats p2) -> toQ (p_beats p1) <= toQ (p_beats p2) ->
+  exists s' p1' p2', run_pend s h p1 = Some (s', p1') /\ run_pend s h p2 = Some (s', p2') /\
+    p_beats p1' = p_beats p1 /\ p_beats p2' = p_beats p2 /\ toQ (p_secs p1') <= toQ (p_secs p2').
+Proof. exact pending_order. Qed.
 
 (* --- histories, with the logical time of each change as data -------------------------------
    integrate folds the changes over the ideal piecewise-affine clock (T, B, V) = "beat B at second T,
@@ -249,6 +264,26 @@ Example ex_ctor_seconds_zero :
   option_map (fun s => canon (py_beats s (F 5))) (py_init clock_blank (F 5) (I 1) (I 0) (I 0)) = Some (1, 5, 1)%Z.
 Proof. vm_compute. reflexivity. Qed.
 
+(* a clock running backwards (etempo(-2)): Typed and TInv hold, WF's positive-tempo side condition does not;
+   play(Quant(1, 1/2)) at second 1 (beat -3/4) is due at beat -1/2 and wakes reading exactly -1/2 *)
+Definition ex_backwards : clockstate :=
+  mkClock (F (-2 # 1)) (F (-1 # 2)) (F (1 # 2)) (F (1 # 4)) (F 4) (F (1 # 4)) (F 0) (F 0).
+Example ex_backwards_hyps : Typed ex_backwards /\ TInv ex_backwards /\
+  ok (py_next_time_on_grid ex_backwards (F 1) (fst (as_quant (QPair (I 1) (F (1 # 2))))) (snd (as_quant (QPair (I 1) (F (1 # 2)))))).
+Proof. unfold Typed, TInv, ok, fl, ex_backwards; cbn. repeat split; reflexivity. Qed.
+Example ex_backwards_play :
+  (canon (py_beats ex_backwards (F 1)),
+   canon (wake_beat_of ex_backwards (sched_abs_nrt ex_backwards (play_beat ex_backwards (F 1) (QPair (I 1) (F (1 # 2)))))))
+  = ((1, -3, 4), (1, -1, 2))%Z.
+Proof. vm_compute. reflexivity. Qed.
+(* two tasks due at beats 9/4 and 3 on ex_clock; after tempo 8, a meter change and beats = 2 they are filed under 37/32 <= 5/4 s *)
+Example ex_pending_order :
+  let h := [OTempo (F (17 # 16)) (I 8); OMeter (F (17 # 16)) (I 2); OBeats (F (9 # 8)) (F (2 # 1))] in
+  (option_map (fun sp => canon (p_secs (snd sp))) (run_pend ex_clock h (sched_abs_nrt ex_clock (F (9 # 4)))),
+   option_map (fun sp => canon (p_secs (snd sp))) (run_pend ex_clock h (sched_abs_nrt ex_clock (I 3))))
+  = (Some (1, 37, 32), Some (1, 5, 4))%Z.
+Proof. vm_compute. reflexivity. Qed.
+
 Print Assumptions beats_secs_inverse.
 Print Assumptions TInv_all_histories.
 Print Assumptions grid_minimal.
@@ -256,3 +291,5 @@ Print Assumptions meter_change_rebases.
 Print Assumptions play_quant_schedules_on_grid.
 Print Assumptions history_consistent.
 Print Assumptions constructor_reference_point.
+Print Assumptions play_quant_wakes_on_grid_any_tempo.
+Print Assumptions pending_tasks_keep_beat_order.
